@@ -145,7 +145,20 @@ impl Default for UptimeTracker {
     }
 }
 
+/// Verification hook: when set to a value other than `u64::MAX`, `get_unix_time_ms`
+/// returns it instead of the system clock.
+#[cfg(feature = "verif-hooks")]
+pub static VERIF_CLOCK_MS: std::sync::atomic::AtomicU64 =
+    std::sync::atomic::AtomicU64::new(u64::MAX);
+
 fn get_unix_time_ms() -> Option<u64> {
+    #[cfg(feature = "verif-hooks")]
+    {
+        let forced = VERIF_CLOCK_MS.load(std::sync::atomic::Ordering::SeqCst);
+        if forced != u64::MAX {
+            return Some(forced);
+        }
+    }
     let now = SystemTime::now();
     now.duration_since(UNIX_EPOCH)
         .ok()
